@@ -74,8 +74,51 @@ func callName(e ast.Expr) string {
 	return ""
 }
 
+// tracked calls: a yield point goes before a statement that calls one of
+// these (accesses to the shared tables and the unsynchronised result decode)
+var trackedCalls = map[string]string{"RetrieveCall": "RetrieveCall", "AddCall": "AddCall", "RemoveCall": "RemoveCall",
+	"NewCall": "NewCall", "RecordAndFinish": "RecordAndFinish"}
+
+func trackedCall(n ast.Node) string {
+	found := ""
+	ast.Inspect(n, func(m ast.Node) bool {
+		if _, ok := m.(*ast.FuncLit); ok {
+			return false
+		}
+		c, ok := m.(*ast.CallExpr)
+		if !ok || found != "" {
+			return true
+		}
+		name := render(c.Fun)
+		if i := strings.LastIndex(name, "."); i >= 0 {
+			name = name[i+1:]
+		}
+		if t, ok := trackedCalls[name]; ok {
+			found = t
+		}
+		if name == "Decode" && len(c.Args) == 1 && render(c.Args[0]) == "r.c.res" {
+			found = "DecodeRes"
+		}
+		if name == "Write" && strings.HasSuffix(render(c.Fun), "writer.Write") {
+			found = "ConnWrite"
+		}
+		return true
+	})
+	return found
+}
+
 // syncKind classifies a statement that needs a yield point before it.
 func syncKind(s ast.Stmt) string {
+	switch x := s.(type) {
+	case *ast.ExprStmt, *ast.AssignStmt:
+		if _, isDefer := s.(*ast.DeferStmt); !isDefer {
+			if t := trackedCall(x); t != "" && !hasRecv(x) {
+				if es, ok := s.(*ast.ExprStmt); !ok || callName(es.X) != "close" {
+					return "call:" + t
+				}
+			}
+		}
+	}
 	switch x := s.(type) {
 	case *ast.SendStmt:
 		return "send"
